@@ -201,3 +201,55 @@ func verifC16Repeat() {
 	}
 	vReach("repeat")
 }
+
+// verifC16Race: the concurrency clause, to the extent the technique reaches it:
+// two goroutines resolve the same name through one Resolver (cold cache, so
+// both take the slow path in some order) and enumerate the targets of the
+// results they were handed; a happens-before monitor over all scheduling
+// points reports conflicting accesses that no synchronisation orders.  The
+// native replay runs under the Go race detector.
+func verifC16Race() {
+	vRaceDetect(true)
+	vSchedForks(true)
+	vPreemptions(2) // every schedule with at most two pre-emptions at synchronisation points
+	clock := int64(3_000_000)
+	timeNow = func() time.Time { return time.Unix(clock, 0) }
+	dns.VerifHook_DoH = func(ctx context.Context, msg *dns.Message, URL string) (*dns.Message, error) {
+		d, _ := dns.DecodeMessage(msg.Bytes())
+		q := d.Question[0]
+		m := &dns.Message{QR: 1}
+		switch q.Type {
+		case 65:
+			al := make([]string, 1, 2) // spare capacity, as produced by append
+			al[0] = "h2"
+			m.Answer = append(m.Answer,
+				dns.RR{Name: q.Name, Type: 65, Class: 1, TTL: 600, Data: dns.HTTPS{Priority: 2, ALPN: al, ECH: []byte{2}}},
+				dns.RR{Name: q.Name, Type: 65, Class: 1, TTL: 600, Data: dns.HTTPS{Priority: 1, ECH: []byte{1}}})
+		case 1:
+			m.Answer = append(m.Answer, dns.RR{Name: q.Name, Type: 1, Class: 1, TTL: 600, Data: net.IP{10, 0, 0, 1}})
+		}
+		return m, nil
+	}
+	r := &Resolver{cache: newResolverCache()}
+	warm := vBool()
+	if warm {
+		_, _ = r.Resolve(context.Background(), "o.example")
+	}
+	done := make(chan int, 2)
+	for i := 0; i < 2; i++ {
+		go func() {
+			res, err := r.Resolve(context.Background(), "o.example")
+			n := 0
+			if err == nil {
+				for range res.Targets("tcp") {
+					n++
+				}
+			}
+			done <- n
+		}()
+	}
+	a, b := <-done, <-done
+	vAssert(a == b, "both users see the same number of targets")
+	vRaces() // every race found by the monitor is reported as a violation of kind "race"
+	vReach("race-checked")
+}
